@@ -14,6 +14,10 @@ def cfg(name, MaxN, MaxComps, queries, schemes=ALL_SCHEMES, Wild=True, variants=
 CONFIGS = {
     ("C07", "quick"): [cfg("get-t3", 3, 2, ("get",)), cfg("get-t4", 4, 2, ("get",), Wild=False, variants=("node/", "anyid"))],
     ("C07", "thorough"): [cfg("get-t4w", 4, 2, ("get",)), cfg("get-t3c3", 3, 3, ("get",), Wild=False), cfg("get-t5", 5, 2, ("get",), schemes=(1, 2, 5), Wild=False, variants=("node/",))],
+    ("C17", "quick"): [cfg("glob-t3", 3, 2, ("glob",), variants=("node/", "adv:alwayseq", "adv:nevereq", "adv:falsy", "adv:unhashable", "adv:tripwire")),
+                       cfg("get-t3", 3, 2, ("get",), variants=("node/", "adv:alwayseq", "adv:zerolen", "adv:tripwire"))],
+    ("C17", "thorough"): [cfg("glob-t3", 3, 2, ("glob",), variants=("node/", "adv:alwayseq", "adv:nevereq", "adv:falsy", "adv:zerolen", "adv:unhashable", "adv:container", "adv:ordering", "adv:tripwire")),
+                          cfg("get-t3", 3, 2, ("get",), variants=("node/", "adv:alwayseq", "adv:nevereq", "adv:falsy", "adv:zerolen", "adv:unhashable", "adv:container", "adv:ordering", "adv:tripwire"))],
     ("C08", "quick"): [cfg("glob-t3", 3, 2, ("glob",)), cfg("glob-t4", 4, 2, ("glob",), schemes=(1, 3, 5), variants=("node/",))],
     ("C08", "thorough"): [cfg("glob-t4a", 4, 2, ("glob",)), cfg("glob-t3c3", 3, 3, ("glob",), variants=("node/", "mixin::"))],
 }
@@ -50,8 +54,9 @@ def run(prop, tier, repo=None, procs=16):
         with core.pool(resolver_replay.worker_init, (repo,), procs) as p:
             size = max(50, min(4000, len(lines) // (procs * 4) + 1))
             parts = p.map(resolver_replay.replay_chunk, [(ch, c["variants"]) for ch in core.chunks(lines, size)])
-        tot = {"n": 0, "same": 0, "attention": [], "per_kind": {}, "dropped": 0, "skipped": 0}
+        tot = {"n": 0, "same": 0, "attention": [], "per_kind": {}, "dropped": 0, "skipped": 0, "lockstep_diff": []}
         for r in parts:
+            tot["lockstep_diff"] += r["lockstep_diff"]
             for k in ("n", "same", "dropped", "skipped"):
                 tot[k] += r[k]
             tot["attention"] += r["attention"]
